@@ -40,8 +40,8 @@ def m_for_each(ex, st, callee, args, dest_ty):
 
 
 def jobs_for(check, mirror, rb, crate, U, jobs, tier, KNOWN_PRED):
-    check.bounds.append("decision service output: 0..%d output decisions, each resolving or not (dangling reference), arbitrary result values; no input decisions, "
-                        "encapsulated decisions or input data (their evaluation is the decisions' own business)" % NOUT)
+    check.bounds.append("decision service output: 0..%d output decisions, each resolving or not (dangling reference), arbitrary result values, 0..1 encapsulated decision (its value lands in the evaluation context and must not leak into the result); no input decisions "
+                        "or input data (their evaluation is the decisions' own business)" % NOUT)
     check.assumptions.append("decision service output: RwLock registries replaced by oracles (DecisionEvaluator::evaluate resolves or not and stores an arbitrary value); "
                              "FeelType::coerced is a recorder (semantics: C16)")
     NUM, CTX = U.idx("Number"), U.idx("Context")
@@ -52,11 +52,13 @@ def jobs_for(check, mirror, rb, crate, U, jobs, tier, KNOWN_PRED):
         ids = [StrV(None, id=z3.IntVal(300 + k)) for k in range(NOUT)]
         resolves = [z3.Bool(ex.fresh_name("resolves%d" % k)) for k in range(NOUT)]
         values = [En("Value", z3.IntVal(NUM), {"Number": (Opaque("FeelNumber", z3.IntVal(1000 + k)),)}) for k in range(NOUT)]
+        ne = ex.fresh_int(st, "usize", "n_encapsulated_decisions", constrain=False)
+        ex.assume(st, z3.And(ne.e >= 0, ne.e <= 1))
         caps = closure_captures(crate, "build_decision_service_evaluator")
         # the first closure with captures in the builder's body is the evaluation closure
         empty = lambda: VecV(z3.IntVal(0), (), "String")
         vals = {"input_decisions": empty(), "input_decision_results_evaluators": VecV(z3.IntVal(0), (), "Evaluator"), "input_data_references": empty(),
-                "encapsulated_decisions": empty(), "output_decisions": VecV(n.e, ids, "String"), "output_variable_type": Opaque("FeelType", "declared"),
+                "encapsulated_decisions": VecV(ne.e, [StrV(None, id=z3.IntVal(400))], "String"), "output_decisions": VecV(n.e, ids, "String"), "output_variable_type": Opaque("FeelType", "declared"),
                 "output_variable_name": Opaque("Name", z3.IntVal(900))}
         if sorted(caps) != sorted(vals):
             raise MirUnsupported("the decision service closure captures %s, the obligation knows %s" % (caps, sorted(vals)))
@@ -64,7 +66,7 @@ def jobs_for(check, mirror, rb, crate, U, jobs, tier, KNOWN_PRED):
         input_data = Ref(ex.new_cell(st, Adt("struct", "FeelContext", (fv.MapV(z3.IntVal(0), (), "kv"),)), "input"))
         output = Ref(ex.new_cell(st, Adt("struct", "FeelContext", (fv.MapV(z3.IntVal(0), (), "kv"),)), "output"))
         me = Ref(ex.new_cell(st, Opaque("ModelEvaluator"), "me"))
-        inputs = dict(n=n.e, _resolves=resolves, _values=values, _output=output)
+        inputs = dict(n=n.e, ne=ne.e, _resolves=resolves, _values=values, _output=output)
         for k in range(NOUT):
             inputs["resolves%d" % k] = resolves[k]
 
@@ -80,6 +82,16 @@ def jobs_for(check, mirror, rb, crate, U, jobs, tier, KNOWN_PRED):
             did = deref(ex, st, args[1])
             k = ex.concrete(did.attrs["id"]) - 300
             ctx = args[4]
+            if k == 100:   # the encapsulated decision: always resolves, its value lands in the same evaluation context
+                name = Opaque("Name", z3.IntVal(40))
+                enc = En("Value", z3.IntVal(NUM), {"Number": (Opaque("FeelNumber", z3.IntVal(4000)),)})
+                for o in ex.run("FeelContext::set_entry", [ctx, Ref(ex.new_cell(st, name, "name")), enc], st):
+                    if o.kind != "return":
+                        yield o
+                    else:
+                        o.st.log.append(("encapsulated", 0))
+                        yield o.st, some(name)
+                return
             for st2 in ex.branch(st, resolves[k]):
                 name = Opaque("Name", z3.IntVal(10 + k))
                 for o in ex.run("FeelContext::set_entry", [ctx, Ref(ex.new_cell(st2, name, "name")), values[k]], st2):
@@ -140,6 +152,8 @@ def jobs_for(check, mirror, rb, crate, U, jobs, tier, KNOWN_PRED):
                                  if isinstance(e.fields[1], En) and "Number" in e.fields[1].alts)
                     okc = got == sorted((10 + k, 1000 + k) for k in resolved)
                 props.append(("with no or several resolved output decisions the raw result is the context of their values", z3.BoolVal(bool(okc))))
+        enc = [e for e in o.st.log if e[0] == "encapsulated"]
+        props.append(("reach:encapsulated decision next to two output decisions", z3.BoolVal(len(resolved) >= 2 and len(enc) == 1)))
         props.append(("reach:one", z3.BoolVal(len(resolved) == 1)))
         props.append(("reach:two", z3.BoolVal(len(resolved) >= 2)))
         props.append(("reach:dangling", z3.BoolVal(any(e[0] == "dangling" for e in o.st.log))))
@@ -147,7 +161,7 @@ def jobs_for(check, mirror, rb, crate, U, jobs, tier, KNOWN_PRED):
 
     def desc(m, v):
         n = model_value(m, v["n"])
-        return {"n_output_decisions": n, "resolves": [bool(model_value(m, v["resolves%d" % k])) for k in range(n)]}
+        return {"n_output_decisions": n, "n_encapsulated_decisions": model_value(m, v["ne"]), "resolves": [bool(model_value(m, v["resolves%d" % k])) for k in range(n)]}
 
     def replay(i, rb):
         """a decision service typed `string` whose output decisions yield numbers: whatever resolves, the service's result must be null
@@ -160,22 +174,29 @@ def jobs_for(check, mirror, rb, crate, U, jobs, tier, KNOWN_PRED):
             else:
                 outs += '<outputDecision href="#_missing%d"/>' % k
         one = sum(1 for r in i["resolves"] if r) == 1
+        many = sum(1 for r in i["resolves"] if r) != 1
+        if i.get("n_encapsulated_decisions"):
+            decs += '<decision name="enc" id="_enc"><variable name="enc" typeRef="number"/><literalExpression><text>4000</text></literalExpression></decision>'
+            outs += '<encapsulatedDecision href="#_enc"/>'
         # variant A, service typed string: a number / a context of numbers does not conform -> null whatever resolves;
         # variant B (exactly one resolved output decision), service typed number: that decision's number itself
         notes, bad = [], False
-        for tref in ["string"] + (["number"] if one else []):
+        for tref in ["string"] + (["number"] if one else []) + (["Any"] if many else []):
             xml = ('<?xml version="1.0" encoding="UTF-8"?><definitions namespace="https://verif" name="m" id="_m" xmlns="https://www.omg.org/spec/DMN/20191111/MODEL/">'
-                   '%s<decisionService name="svc" id="_svc"><variable name="svc" typeRef="%s"/>%s</decisionService></definitions>') % (decs, tref, outs)
+                   '%s<decisionService name="svc" id="_svc"><variable name="svc"%s/>%s</decisionService></definitions>') % (decs, "" if tref == "Any" else ' typeRef="%s"' % tref, outs)
             _, out, _ = replay_call(rb, ["model_eval", xml, "svc", "{}"])
             if out.startswith("PARSE-ERROR") or out.startswith("BUILD-ERROR"):
                 notes.append("typed %s: replay model rejected: %s" % (tref, out[:80]))
                 continue
             want = "VALUE %d" % (1000 + i["resolves"].index(True)) if tref == "number" else "VALUE null"
-            dev = out.startswith("PANIC") or (out.strip() != want if tref == "number" else not out.startswith("VALUE null"))
+            if tref == "Any":
+                # several resolved output decisions, untyped service: the context of exactly the output decisions' values
+                want = "VALUE {" + ", ".join("d%d: %d" % (k, 1000 + k) for k, r in enumerate(i["resolves"]) if r) + "}"
+            dev = out.startswith("PANIC") or (out.strip() != want if tref in ("number", "Any") else not out.startswith("VALUE null"))
             bad = bad or dev
             notes.append("typed %s -> %s (specified: %s)" % (tref, out[:60], want[6:]))
         return bad, "decision service with output decisions %s (resolving: %s): %s" % (["d%d" % k for k in range(len(i["resolves"]))], i["resolves"], "; ".join(notes))
 
     jobs.append(lambda c: decide(c, crate, "decision_service_output", setup, post, replay, rb, models=[(re.compile(r"^format$|^std::fmt::format$|^alloc::fmt::format$"), m_format_stub),
                                  (re.compile(r"^<std::slice::Iter<'_, .*> as Iterator>::for_each::<.*>$"), m_for_each)] + fv.VALUE_MODELS,
-                                 unwind=24, describe=desc, need_reach=["reach:one", "reach:two", "reach:dangling"], max_cex=16, budget_s=900, known_predicates=KNOWN_PRED))
+                                 unwind=24, describe=desc, need_reach=["reach:one", "reach:two", "reach:dangling", "reach:encapsulated decision next to two output decisions"], max_cex=16, budget_s=900, known_predicates=KNOWN_PRED))
